@@ -406,7 +406,13 @@ def sample_elf(rng, cl=None, little=None, kinds=None, rich=True):
             info["nversyms"] = nsyms
     if "dynamic" in kinds:
         dsz = C02.size_of("dyn", cl)
-        dd = b"".join(pack("dyn", cl, little, dict(d_tag=t, d_un=v)) for t, v in [(1, 1), (5, 0x400), (-2 if cl == 64 else -3, 7), (0x6ffffffe, 9), (0, 0)])
+        dents = [(1, 1), (5, 0x400), (-2 if cl == 64 else -3, 7), (0x6ffffffe, 9), (0, 0)]
+        r_ = rng.random()
+        if r_ < 0.2:
+            dents.insert(rng.randrange(1, 4), (0, 0))          # a DT_NULL before the end: the table is every designated entry
+        elif r_ < 0.4:
+            dents += [(0, 0)] * rng.choice([1, 3])             # spare DT_NULL slots after the terminator
+        dd = b"".join(pack("dyn", cl, little, dict(d_tag=t, d_un=v)) for t, v in dents)
         di = e.add(b".dynamic", SHT["DYNAMIC"], dd, entsize=dsz, align=8, flags=3)
         e.seg(PT["DYNAMIC"], sec=di, align=8)
     if "note" in kinds:
